@@ -56,8 +56,17 @@ def gen_group(rnd, invalid=False):
         return rnd.choice((["X"], ["E", "B"], [1], ["EE"], "EDX", [""]))
     c = rnd.random()
     if c < 0.3:
-        return rnd.choice((["E", "D"], ["K", "R"], ["P", "E", "D", "K", "R"], ["e", "d"], ["S", "T", "Y"], ["G"]))
-    return rnd.sample(list(AA), rnd.randrange(1, 7))
+        g = rnd.choice((["E", "D"], ["K", "R"], ["P", "E", "D", "K", "R"], ["e", "d"], ["S", "T", "Y"], ["G"]))
+    else:
+        g = rnd.sample(list(AA), rnd.randrange(1, 7))
+    f = rnd.random()
+    if f < 0.12:
+        return {"__tuple__": g}                       # groups are "lists of residues": tuples, strings and sets iterate the same way
+    if f < 0.2:
+        return "".join(g)
+    if f < 0.3:
+        return {"__shared__": "grp", "value": g}      # one list object kept by the caller and edited in place between calls
+    return g
 
 
 def gen_alphabet(rnd, invalid=False):
